@@ -1,14 +1,14 @@
 SPECIFICATION Spec
 CONSTANTS Callers = {c1, c2}
- MaxTick = 2
+ MaxTick = 3
  MaxRot = 1
- MaxAtt = 2
- FreshKey = FALSE
+ MaxAtt = 3
+ FreshKey = TRUE
  MaxJunk = 0
  MaxClose = 0
- MaxBad = 0
- Kinds = {"obj", "vec"}
- Dev = {"HintKeyedByServerId"}
+ MaxBad = 1
+ Kinds = {"obj"}
+ Dev = {}
 INVARIANTS WireIdsIncrease SeqNoRules OwnResult TypedVector LoopAlive AcceptedNeverResent SaltPersisted NoStallNotify NoStallDeliver AckedAll
-
+PROPERTIES AllDone LoopKeepsReading
 VIEW view
